@@ -79,3 +79,21 @@ Definition rtab_eqb (a b : rtable) : bool :=
   list_eqb (fun x y => Nat.eqb (fst x) (fst y) && ptab_eqb (snd x) (snd y)) a b.
 Record c12file := FL { fl_jobs : list ejob; fl_impl : rtable }.
 Definition c12_file_check (k : c12file) : bool := rtab_eqb (file_all (fl_jobs k)) (fl_impl k).
+
+(* ---- experiment(): algorithm declarations -> the jobs the evaluator handed back ----
+   hres is what a result of harness/props/c12_jobs.py reveals about its producer: algorithm type,
+   EFFECTIVE configuration (kwargs 0 = {} gives the class default: 8 for type 3 = TagNSGAII's
+   population_size, 1 = batch otherwise), problem, replicate *)
+Definition dB (ty : Z) : adecl := DBare (Z.to_nat ty).
+Definition dT1 (ty : Z) : adecl := DTup1 (Z.to_nat ty).
+Definition dT2 (ty kw : Z) : adecl := DTup2 (Z.to_nat ty) kw.
+Definition dT3 (ty kw nm : Z) : adecl := DTup3 (Z.to_nat ty) kw (Z.to_nat nm).
+Definition hres (ty : nat) (kw : Z) (p k : nat) : Z :=
+  let cfg := if kw =? 0 then (if Nat.eqb ty 3 then 8 else 1) else kw in
+  Z.of_nat ty * 100000 + cfg * 1000 + Z.of_nat p * 100 + Z.of_nat k.
+Definition ejob_eqb (a b : ejob) : bool :=
+  Nat.eqb (j_alg a) (j_alg b) && Nat.eqb (j_prob a) (j_prob b) && Z.eqb (j_res a) (j_res b).
+Record c12decl := FD { fd_decls : list adecl; fd_probs : list Z; fd_seeds : Z; fd_jobs : list ejob }.
+Definition c12_decl_check (k : c12decl) : bool :=
+  opt_eqb (list_eqb ejob_eqb)
+    (decl_jobs (fd_decls k) (map Z.to_nat (fd_probs k)) (Z.to_nat (fd_seeds k)) hres) (Some (fd_jobs k)).
